@@ -94,7 +94,12 @@ theorem TExt.fnOf {s s' : St} (h : TExt s s') (id : Nat) (hid : id < s.fns.lengt
   obtain ⟨⟨e, he⟩, _⟩ := h
   simp only [VM.fnOf, he, List.getD_eq_getElem?_getD, List.getElem?_append_left hid]
 
-theorem toB_stable {T T' : List LoopRec} (h : ∃ e, T' = T ++ e) (i : Instr) (hi : instrOK T.length i = true) :
+/-- the sizes of the tables of a state -/
+def szS (s : St) : Sz := ⟨s.loops.length, s.fns.length⟩
+
+theorem TExt.sz {s s' : St} (h : TExt s s') : (szS s).le (szS s') := ⟨h.loops_len, h.fns_len⟩
+
+theorem toB_stable {T T' : List LoopRec} {M : Nat} (h : ∃ e, T' = T ++ e) (i : Instr) (hi : instrOK ⟨T.length, M⟩ i = true) :
     toB T' i = toB T i := by
   obtain ⟨e, rfl⟩ := h
   cases i <;> first
@@ -102,7 +107,7 @@ theorem toB_stable {T T' : List LoopRec} (h : ∃ e, T' = T ++ e) (i : Instr) (h
     | (simp only [instrOK, decide_eq_true_eq] at hi
        simp only [toB, List.getD_eq_getElem?_getD, List.getElem?_append_left hi])
 
-theorem B_stable {T T' : List LoopRec} (h : ∃ e, T' = T ++ e) (code : List Instr) (hc : AllOK T.length code) :
+theorem B_stable {T T' : List LoopRec} {M : Nat} (h : ∃ e, T' = T ++ e) (code : List Instr) (hc : AllOK ⟨T.length, M⟩ code) :
     B T' code = B T code := by
   simp only [B]
   apply List.map_congr_left
@@ -110,19 +115,19 @@ theorem B_stable {T T' : List LoopRec} (h : ∃ e, T' = T ++ e) (code : List Ins
   exact toB_stable h i (hc i hi)
 
 theorem fnB_stable {s s' : St} (h : TExt s s') (id : Nat) (hid : id < s.fns.length)
-    (hc : AllOK s.loops.length (fnOf s id).code) : fnB s' id = fnB s id := by
+    (hc : AllOK (szS s) (fnOf s id).code) : fnB s' id = fnB s id := by
   simp only [fnB, h.fnOf id hid, B_stable h.loops _ hc]
 
 /-- function object `id` is a verified function -/
 structure FnGood (s : St) (id : Nat) : Prop where
   user : (fnOf s id).user = false
   sig : (fnOf s id).params.length = (fnOf s id).nargs + (if (fnOf s id).varargs then 1 else 0)
-  code : AllOK s.loops.length (fnOf s id).code
+  code : AllOK (szS s) (fnOf s id).code
   verified : ∃ ann, verify (fnB s id) ann = true
 
 theorem FnGood.ext {s s' : St} {id : Nat} (h : FnGood s id) (he : TExt s s') (hid : id < s.fns.length) : FnGood s' id := by
   have hf := he.fnOf id hid
-  refine ⟨by rw [hf]; exact h.user, by rw [hf]; exact h.sig, by rw [hf]; exact h.code.mono he.loops_len, ?_⟩
+  refine ⟨by rw [hf]; exact h.user, by rw [hf]; exact h.sig, by rw [hf]; exact h.code.mono he.sz, ?_⟩
   rw [fnB_stable he id hid h.code]
   exact h.verified
 
@@ -153,13 +158,13 @@ structure ActOK (s : St) (a : Act) : Prop where
   noEnd : annAt a.ann (fnB s a.f).code.length = none
   user : (fnOf s a.f).user = false
   idx : a.f < s.fns.length
-  code : AllOK s.loops.length (fnOf s a.f).code
+  code : AllOK (szS s) (fnOf s a.f).code
 
 theorem ActOK.ext {s s' : St} {a : Act} (h : ActOK s a) (he : TExt s s') : ActOK s' a := by
   have hb := fnB_stable he a.f h.idx h.code
   have hf := he.fnOf a.f h.idx
   exact ⟨by rw [hb]; exact h.step, by rw [hb]; exact h.len, by rw [hb]; exact h.noEnd, by rw [hf]; exact h.user,
-    Nat.lt_of_lt_of_le h.idx he.fns_len, by rw [hf]; exact h.code.mono he.loops_len⟩
+    Nat.lt_of_lt_of_le h.idx he.fns_len, by rw [hf]; exact h.code.mono he.sz⟩
 
 /-- what a `runLoop` was started on: the stacks of the pseudo caller and where it resumes -/
 structure Base where
